@@ -77,6 +77,9 @@ contract("usim._basics.pipe.Pipe.transfer",
          # a transfer that ends -- normally, cancelled, interrupted or closed -- no longer occupies bandwidth (C13)
          on_exit=[DEAD_NEW, "forall_new_exact(object, lambda o: o not in self._subscriptions)"],
          stable=["identifier in self._subscriptions", "self._subscriptions[identifier]"],
+         # while it runs the transfer is registered with exactly its own limit (the weight of its proportional share)
+         at_suspension=["identifier in self._subscriptions",
+                        "self._subscriptions[identifier] == ite(throughput is None, self.throughput, throughput)"],
          loop_invariants={"while#1": ["loop.activity is me", "identifier in self._subscriptions", "throughput > 0",
                                       "self._subscriptions[identifier] == throughput", "transferred >= 0"]},
          props=["C13", "C20"])
